@@ -48,6 +48,16 @@ int clock_gettime(clockid_t clk, struct timespec *ts) {
     return 0;
 }
 
+/* the profiler's tick is one nanosecond whatever granularity the clock advertises: to the profiler the shim reports a
+   coarse clock (CONFIG_HZ=250), so a unit derived from the resolution shows */
+int clock_getres(clockid_t clk, struct timespec *ts) {
+    static int (*real_getres)(clockid_t, struct timespec *) = 0;
+    if (!real_getres) real_getres = dlsym(RTLD_NEXT, "clock_getres");
+    if (clk != CLOCK_MONOTONIC || !from_profiler(__builtin_return_address(0))) return real_getres(clk, ts);
+    if (ts) { ts->tv_sec = 0; ts->tv_nsec = 4000000; }
+    return 0;
+}
+
 void vclock_advance(int64_t d) { if (!inited) init(); now_ns += d; }
 int64_t vclock_now(void) { if (!inited) init(); return now_ns; }
 int64_t vclock_reads(void) { return reads; }
